@@ -475,6 +475,9 @@ func Execute(t *testing.T, sc Scenario, c *Case, recording bool, tapeSeed uint64
 	if pc, ok := sc.(PostChecker); ok && done && envOut != nil && v.HarnessError == "" && v.Inconclusive == "" {
 		pc.PostCheck(c, envOut, &v)
 	}
+	if envOut != nil && envOut.NW != nil {
+		envOut.NW.Release()
+	}
 	return v
 }
 
